@@ -48,6 +48,9 @@ pub enum ModelParseError {
     #[error("The question/tree section contains non-ASCII bytes")]
     NonAsciiTree,
 
+    #[error("NUM_STREAMS does not match STREAM_TYPE, or there are fewer than two streams")]
+    InvalidStreamCount,
+
     #[error("Failed to parse question: {0}")]
     QuestionParseError(#[from] jlabel_question::ParseError),
 }
@@ -68,6 +71,10 @@ pub fn parse_htsvoice(input: &[u8]) -> Result<Voice, ModelParseError> {
     let (_, (in_global, in_stream, in_position, in_data)) = split_sections(input)?;
 
     let global: Global = parse_header(&in_global)?;
+    if global.num_streams != global.stream_type.len() || global.num_streams < 2 {
+        // a spectrum stream and a log-F0 stream are always required
+        return Err(ModelParseError::InvalidStreamCount);
+    }
     let stream: Stream = parse_header(&in_stream)?;
     let position: Position = parse_header(&in_position)?;
 
